@@ -1,7 +1,8 @@
 (* `sudoku` sub-command (property C18) over the extracted model coq/Model/Sudoku.v; same case grammar as
    harness/src/sudoku.rs.  Output: `model ||| spec`.
    model = grid|none|perr ; parse=ok|err|- ; res=<grid>|none ; gen=<grid>|none ; c0=<masks> ; adv=0|1 ; c1=<masks> ; eqs=<r,c,d ...>|- ; str=<grid>|none|-
-   spec  = sat | unsat | parse-err, prefixed by `BAD:kf_clue_out_of_range ` when a clue lies outside 0..9.
+   spec  = sat | unsat | parse-err.  A raw grid with a cell outside 0..9 is an ordinary case: no completion, the
+   answer must be none (theorem sudoku_out_of_range_none; the former class kf_clue_out_of_range is repaired).
    The specification side ("do the clues admit a completion?") is decided by the model's own complete search:
    theorems sudoku_complete / sudoku_none_sound / sudoku_sound (Properties/C18.v) say that its verdict IS the
    existence of a completion; a `sat` answer is additionally certified here by checking the model's grid with the
@@ -34,26 +35,22 @@ let fmt_posts (l : (nat * z) list) : string =
 let clue_count (p : z list) : int = List.length (List.filter (fun v -> int_of_z v <> 0) p)
 
 let grid_part (p : z list) : string * string * z list option option =
-  let in_range = clues_okb p in
   let res = solve_sudoku_exec p in
   let gen = solve_general_exec p in
   let c0, adv, c1, eqs =
-    if in_range then begin
-      let cs = new_cands p in
-      let ((posts, cs'), prog) = apply_advanced p cs in
-      fmt_masks cs, b2s prog, fmt_masks cs', fmt_posts posts
-    end else "-", "-", "-", "-" in
+    let cs = new_cands p in
+    let ((posts, cs'), prog) = apply_advanced p cs in
+    fmt_masks cs, b2s prog, fmt_masks cs', fmt_posts posts in
   let certified = match res with
     | Some (Some g) -> valid_sudokub g && agreesb p g
     | _ -> false in
   let split = match res, gen with
     | Some (Some _), Some (Some _) | Some None, Some None -> ""
-    | _ -> if in_range then " SPECSPLIT" else "" in
+    | _ -> " SPECSPLIT" in
   let spec =
-    (if in_range then "" else "BAD:kf_clue_out_of_range ") ^
     (match res with
      | Some (Some _) when certified -> "sat"
-     | Some (Some _) -> if in_range then "UNCERTIFIED" else "unsat"
+     | Some (Some _) -> "UNCERTIFIED"
      | Some None -> "unsat"
      | None -> "FUEL") ^ split in
   (Printf.sprintf "res=%s ; gen=%s ; c0=%s ; adv=%s ; c1=%s ; eqs=%s" (fmt_res res) (fmt_res gen) c0 adv c1 eqs, spec, res)
